@@ -6,7 +6,7 @@ from .. import trees
 from ..common import Snapshot, eqstar, weighted
 
 PLAN = {
-    "quick": {"shards": 8, "cases": 500, "min_nontrivial": 2500, "budget_s": 240},
+    "quick": {"shards": 8, "cases": 1500, "min_nontrivial": 6000, "budget_s": 300},
     "thorough": {"shards": 16, "cases": 8000, "min_nontrivial": 60000, "budget_s": 1500},
 }
 RULE = ("(A) pairs of plain trees with overlapping and disjoint keys at depth <= 4 and map/non-map conflicts: "
